@@ -73,9 +73,9 @@ class _Rand(ConcMk):
 def cases(tier):
     th = tier == "thorough"
     out = []
-    hs = CL.histories(3 if th else 2, False)
+    hs = CL.histories(3, False) if th else CL.histories(2, False, ops=["set_pos", "set_mom", "copy", "copy_ro", "switch"])
     for sname in CL.SYSTEMS:
-        for conv in ("plain", "aux"):
+        for conv in (("plain", "aux") if th or sname in ("euclid", "diagonal", "constr") else ("plain",)):
             chunks = [hs[i:i + 14] for i in range(0, len(hs), 14)]
             for ci, ch in enumerate(chunks):
                 out.append(Case(f"{sname}/{conv}/h{ci}", run_group, {"sname": sname, "hists": ch, "convention": conv, "two_systems": False},
